@@ -14,11 +14,12 @@ use core::marker::PhantomData;
 use core::borrow::{Borrow, BorrowMut};
 use std::iter::FromIterator; use core::iter; use core::mem;
 verus! {
+global size_of usize == 8;
 '''
 VX_OPEN = 'pub mod vx {\nuse vstd::prelude::*;\n'
 VX_CLOSE = '}\nuse vx::*;\n'
 VP_OPEN = ('pub mod vp {\nuse vstd::prelude::*;\n')
-VP_CLOSE = '}\nuse vp::*;\nbroadcast use {vx::vx_axioms, vp::field_ops, vp::group_ops, vp::ax_np2, vp::sum_postcondition, vp::ax_vx_same};\n'
+VP_CLOSE = '}\nuse vp::*;\nbroadcast use {vx::vx_axioms, vp::field_ops, vp::group_ops, vp::ax_np2, vp::sum_postcondition, vp::ax_vx_same, vp::ax_field_clone};\n'
 FOOTER = '\n} // verus!\nfn main() {}\n'
 
 
